@@ -108,7 +108,19 @@ func GenFS(r *core.Rand, dir string, cfg *FSCfg) *FSLayout {
 			addFrame(f)
 		}
 	}
+	// shorterTails writes, next to a file of a source tree, files at shorter tails of its relative path
+	// ("corp/util/util.go" -> "util/util.go", "util.go"): the remote root is to be found through the whole
+	// relative path, not through the first tail that happens to exist.
+	shorterTails := func(tree, rel string) {
+		parts := strings.Split(rel, "/")
+		for k := 1; k < len(parts); k++ {
+			if r.Bool() {
+				writeFile(tree+"/"+strings.Join(parts[k:], "/"), "package shadow\n")
+			}
+		}
+	}
 	for i, lp := range l.LocalGOPATHs {
+		ambiguous := cfg.Decoys && r.Chance(1, 4)
 		remote := remoteNames[i]
 		if r.Chance(1, 4) {
 			remote = lp
@@ -139,6 +151,9 @@ func GenFS(r *core.Rand, dir string, cfg *FSCfg) *FSLayout {
 				ex := present() || k == 0
 				if ex {
 					writeFile(lp+"/src/"+f, src(f))
+					if ambiguous {
+						shorterTails(lp+"/src", f)
+					}
 				}
 				addFrame(FSFrame{Remote: remote + "/src/" + f, Local: lp + "/src/" + f, Rel: f, Import: filepath.Dir(f), Class: FSGOPATH, Exists: ex, Pkg: filepath.Dir(f), Explains: remote})
 				used = true
@@ -152,6 +167,9 @@ func GenFS(r *core.Rand, dir string, cfg *FSCfg) *FSLayout {
 				ex := present() || (k == 0 && !used)
 				if ex {
 					writeFile(lp+"/pkg/mod/"+f, src(f))
+					if ambiguous {
+						shorterTails(lp+"/pkg/mod", f)
+					}
 				}
 				pk := filepath.Dir(f)
 				if at := strings.IndexByte(pk, '@'); at >= 0 {
